@@ -104,6 +104,11 @@ type exprVar struct {
 
 const trickyText = `a > 1 && b < "x"`
 
+// text whose inner white space matters: a string literal with two blanks, a tab and a line break
+// inside the payload (only *surrounding* white space is outside the comparison)
+// (valid XPath, the default language of the generated documents, and true)
+const spacedText = "\"a  b\" = \"a  b\" and\n\t1 = 1"
+
 func exprVariants(full bool) []exprVar {
 	mk := func(text string, attrs ...attr) func(string) *el {
 		return func(tag string) *el { return E(tag, attrs...).txt(text) }
@@ -114,6 +119,7 @@ func exprVariants(full bool) []exprVar {
 		{"informal", 1, mk("true"), false},
 		{"formal", 1, mk("true", formalT), true},
 		{"formal+expr", 2, mk("true", formalT, A("language", langExpr)), true},
+		{"formal-inner-whitespace", 2, mk(spacedText, formalT), true},
 	}
 	if full {
 		vs = append(vs,
@@ -939,6 +945,10 @@ func definitionsVariants(tier string) []variant {
 		vs = append(vs, bodyVariant("documentation["+p.label+"]", 1+p.weight, func(c *ctx) {
 			attrs := c.fixRefs(p.attrs, "id")
 			c.chain(c.node("bpmn:task", "x", ss("f1"), ss("f2")).add(E("bpmn:documentation", attrs...).txt("some <documented> & text")))
+		}))
+		vs = append(vs, bodyVariant("documentation-inner-whitespace["+p.label+"]", 2+p.weight, func(c *ctx) {
+			attrs := c.fixRefs(p.attrs, "id")
+			c.chain(c.node("bpmn:task", "x", ss("f1"), ss("f2")).add(E("bpmn:documentation", attrs...).txt("two  blanks,\n\ta line break and a tab")))
 		}))
 	}
 	// indented rendering of the base document of every node kind (white-space-only text
